@@ -436,6 +436,44 @@ type isoBatch struct {
 	Hash     string    `json:"hash"`
 	Involved []string  `json:"involved"` // address hex
 	Mixed    bool      `json:"mixed_peg_batch"`
+	Txs      []Tx      `json:"txs"`
+	Owner    string    `json:"owner"` // address hex of the input address
+}
+
+// registeredWedge decides whether a block failing on this batch is a manifestation of the
+// registered finding C16/mixed-peg-batch: (b) the batch has a PEG request and a transfer and
+// the failure is the invalid-column error, or (c) a later transaction of the batch spends PEG
+// that only the batch's own (deferred) PEG credit would provide. Anything else is new.
+func (ib *isoBatch) registeredWedge(errText string, before map[string]uint64) bool {
+	if !ib.Mixed {
+		return false
+	}
+	if strings.Contains(errText, "invalid token type") {
+		return true
+	}
+	if !strings.Contains(errText, "insufficient balance") {
+		return false
+	}
+	peg := before["peg"]
+	sawRequest := false
+	for _, tx := range ib.Txs {
+		if tx.Conv == "PEG" {
+			sawRequest = true
+			continue
+		}
+		if tx.Asset == "PEG" {
+			if tx.Amt > peg {
+				return sawRequest // PEG spend not covered by the starting balance: needs the deferred credit
+			}
+			peg -= tx.Amt
+			for _, o := range tx.Outs {
+				if AddrHexOf(o.To) == ib.Owner {
+					peg += o.Amt
+				}
+			}
+		}
+	}
+	return false
 }
 
 func genIsoBatch(t *rapid.T, st *Stats) *isoBatch {
@@ -492,6 +530,18 @@ func genIsoBatch(t *rapid.T, st *Stats) *isoBatch {
 			txs = append(txs, Tx{From: owner.FA(), Asset: Tickers[a-1], Amt: amt, Outs: []Xfer{{To: to.FA(), Amt: amt}}})
 		}
 	}
+	// legacy era: often lead with a PEG request and let a later transaction draw on the same asset
+	if legacy && rapid.IntRange(0, 2).Draw(t, "leadPegRequest") == 0 {
+		a := assets[1+rapid.IntRange(0, len(assets)-2).Draw(t, "leadAsset")]
+		bal := w.Bal(owner, a)
+		lead := Tx{From: owner.FA(), Asset: Tickers[a-1], Amt: w.AimAmount(bal/2+bal/8, "leadAmt"), Conv: "PEG"}
+		follow := Tx{From: owner.FA(), Asset: Tickers[a-1], Amt: w.AimAmount(bal/2+bal/8, "followAmt"), Conv: "pEUR"}
+		txs = append([]Tx{lead, follow}, txs...)
+		if len(txs) > 4 {
+			txs = txs[:4]
+		}
+		hasPegReq, other = true, true
+	}
 	// make sure it is held: at least one conversion
 	conv := false
 	for _, x := range txs {
@@ -503,6 +553,8 @@ func genIsoBatch(t *rapid.T, st *Stats) *isoBatch {
 		txs = append(txs, Tx{From: owner.FA(), Asset: "PEG", Amt: 1, Conv: "pUSD"})
 	}
 	ib.Mixed = legacy && hasPegReq && other
+	ib.Txs = txs
+	ib.Owner = owner.AddrHex()
 	e := w.Batch(owner, txs)
 	eh := HashOn(ChTX, e)
 	ib.Hash = fmt.Sprintf("%x", eh[:])
@@ -533,8 +585,11 @@ func checkIsoBatch(ib *isoBatch) (msg string, outcome string) {
 		return true
 	}})
 	if !res.OK(ib.Sc.Chain.Tip) {
-		if ib.Mixed && res.WedgedAt == ib.ExecH {
+		if res.WedgedAt == ib.ExecH && ib.registeredWedge(res.String(), before[ib.Owner]) {
 			return "", "wedge(registered finding)"
+		}
+		if res.WedgedAt == ib.ExecH {
+			return "a well-signed batch makes its block fail for ever (not the registered legacy mixed-batch finding): " + res.String(), ""
 		}
 		return "harness: chain did not sync (C08's business): " + res.String(), ""
 	}
